@@ -700,6 +700,87 @@ func ruleLexerBack(c *Ctx) *RuleResult {
 // passes a one-sided `i < stop` test.)
 func init() { register("B-STEP", ruleStepOverflow) }
 
+// sameStableValue: a and b are the same SSA value, or two reads of the same
+// field path of a parameter that the function never writes (go/ssa does not
+// merge repeated reads: `b.step` read twice is two instructions).
+func sameStableValue(a, b ssa.Value) bool {
+	if a == b {
+		return true
+	}
+	ka, kb := stableReadKey(a, 0), stableReadKey(b, 0)
+	return ka != "" && ka == kb
+}
+
+func stableReadKey(v ssa.Value, depth int) string {
+	if depth > 6 {
+		return ""
+	}
+	switch v := v.(type) {
+	case *ssa.Parameter:
+		return "p:" + v.Name()
+	case *ssa.Field:
+		if k := stableReadKey(v.X, depth+1); k != "" {
+			return k + "." + itoa(v.Field)
+		}
+	case *ssa.UnOp:
+		if v.Op != token.MUL {
+			return ""
+		}
+		switch a := v.X.(type) {
+		case *ssa.Alloc:
+			if p := spilledParam(a); p != nil {
+				return "p:" + p.Name()
+			}
+		case *ssa.FieldAddr:
+			switch base := a.X.(type) {
+			case *ssa.Alloc:
+				if p := spilledParam(base); p != nil {
+					return "p:" + p.Name() + "." + itoa(a.Field)
+				}
+			case *ssa.Parameter:
+				// a field behind a pointer parameter: stable if the function stores nothing through that parameter
+				if fn := base.Parent(); fn != nil && !writesThrough(fn, base) {
+					return "p:" + base.Name() + "->" + itoa(a.Field)
+				}
+			}
+		}
+	}
+	return ""
+}
+
+// writesThrough: fn contains a store whose address is derived from p, or hands p to a call.
+func writesThrough(fn *ssa.Function, p *ssa.Parameter) bool {
+	for _, b := range fn.Blocks {
+		for _, in := range b.Instrs {
+			switch in := in.(type) {
+			case *ssa.Store:
+				a := in.Addr
+				for i := 0; i < 6; i++ {
+					switch x := a.(type) {
+					case *ssa.FieldAddr:
+						a = x.X
+						continue
+					case *ssa.IndexAddr:
+						a = x.X
+						continue
+					}
+					break
+				}
+				if a == ssa.Value(p) {
+					return true
+				}
+			case *ssa.Call:
+				for _, arg := range in.Call.Args {
+					if arg == ssa.Value(p) {
+						return true
+					}
+				}
+			}
+		}
+	}
+	return false
+}
+
 func ruleStepOverflow(c *Ctx) *RuleResult {
 	r := &RuleResult{Doc: "loops that advance a slice index by a variable step guard the increment against overflow: the latch is reached only when bound - i compared with the step shows that i + step stays on the same side of the bound (no such loop: nothing to guard)", Floor: 0}
 	for _, fn := range allFuncs(c.SLib) {
@@ -783,9 +864,9 @@ func ruleStepOverflow(c *Ctx) *RuleResult {
 					}
 					isDist := func(v ssa.Value) bool {
 						s, ok := v.(*ssa.BinOp)
-						return ok && s.Op == token.SUB && s.X == bound && s.Y == ph
+						return ok && s.Op == token.SUB && sameStableValue(s.X, bound) && s.Y == ph
 					}
-					if (isDist(bo.X) && bo.Y == add.Y) || (isDist(bo.Y) && bo.X == add.Y) {
+					if (isDist(bo.X) && sameStableValue(bo.Y, add.Y)) || (isDist(bo.Y) && sameStableValue(bo.X, add.Y)) {
 						guarded = true
 					}
 				}
